@@ -707,6 +707,37 @@ def contracts():
     return cs + _scenarios() + [AsCsr(), FunctionAsCoo(), FunctionAsCsr(2), FunctionAsCsr(1), FunctionAsCsr(3), Accumulate()]
 
 
-TRUSTED = ['dense (evalf) meanings of the IR constructors in contracts/c05_arr.py (cross-checked natively: native/axioms_c05.py)']
-ASSUMPTIONS = ['Array.assparse: the chunks of self._assparse have in-range indices (0 <= index_k < shape_k), are of rank 1 (after _flat) and there are at most 2 of them']
-NOT_COVERED = []
+TRUSTED = ['dense (evalf) meanings of the IR constructors in contracts/c05_arr.py: InsertAxis, Transpose/transpose, Range, prependaxes, appendaxes, Take, elementwise + - *, '
+           'divmod, concatenate, Sum, Inflate, zeros, constant, Guard, _flat, multiply, align, unalign (by its docstring, on inserted-axis bookkeeping), '
+           'and of the node classes whose _assparse is under contract (InsertAxis, Transpose, Diagonalize, Ravel, Unravel, Sum, Zeros, Add, Multiply): '
+           'cross-checked against the real nutils evaluation on random small inputs (native/axioms_c05.py:run_ir)',
+           'numpy.argsort(kind=stable): a permutation with inverse that sorts (transitive form); numpy.nonzero of a bool vector stated through the '
+           'counting function count(k) (recurrence): entries strictly increasing, only True positions, True position i is entry count(i)-1, length count(n-1) '
+           '(native/axioms_c05.py:run)',
+           'L-MONO instances: count(k) monotone; a monotone row pointer from 0 to n stays in [0, n]',
+           'induction over the vector position with explicit base and step obligations (unique harness: two inductions)',
+           'lemma schemas L-DIVMOD and L-LEX are PROVED once per contract on fresh constants and then instantiated by substitution',
+           'Multiply._assparse: both sides of scatter = dense are expanded into monomials over the symbolic value atoms by contracts/c05_arr.py:poly '
+           '(distributivity applied by the checker); the solver compares the indicator coefficients monomial by monomial (a sufficient condition)',
+           'util.sum / util.cumsum / util.gather (group by identical key, insertion order), itertools.chain / product, numpy.union1d / searchsorted / arange on '
+           'concrete axis tuples: modelled directly; _gathersparsechunks is executed from its real body',
+           'scatter-add is linear: "every entry of every chunk lands in a slot carrying exactly its index tuple, the values are one Inflate per chunk" implies '
+           'that scattering the merged COO data equals scattering the chunks (meta-argument for Array.assparse, not an SMT obligation)']
+ASSUMPTIONS = ['Array.assparse: the chunks of self._assparse have in-range indices (0 <= index_k < shape_k) -- the invariant the _assparse contracts establish -- '
+               'are of rank 1 (after _flat) and there are at most 2 of them; ranks 0..3',
+               'Array.assparse uses evaluable.unique through its contract (count, strictly-increasing, inverse-maps-to-own-value, every-unique-value-occurs), '
+               'which the evaluable:unique harness proves for return_inverse=True from the real body',
+               'unique harness: UniqueMask / UniqueInverse nodes evaluate to what their evalf contracts (C05.py) state; ArgSort / Find / Take evaluate to the numpy calls they compile to',
+               '_assparse rules (bounded): children are given by chunks that denote them (2 sparse chunks of 2 entries, or the default dense chunk, or a dense chunk with '
+               'reversed axes); Add._terms / Multiply._factors list the operands; an array without declared chunks delivers the chunks of the default rule',
+               'evaluable.as_csr: array.simplified.assparse satisfies the Array.assparse contract for rank 2; CompressIndices evaluates numeric.compress_indices, used through '
+               'its contract (its precondition -- indices in range and monotone -- is an obligation here)',
+               'function.as_coo / as_csr: pass-through composition only (as_evaluable_array / simplified are not under contract)',
+               'numeric.accumulate is only checked up to the stated bound (bounded native stand-in, not a proof)',
+               'float values are exact reals; int64 as mathematical integers']
+NOT_COVERED = ['LoopSum._assparse, LoopConcatenate._assparse (need loop semantics)',
+               'Array.assparse for more than 2 chunks / chunks of rank > 1 / rank > 3; `unique` with return_index',
+               '_assparse rules beyond the stated sizes; that Array.simplified preserves the value (C01); Multiply/Add/Sum with dtype bool beyond falling back to the default rule',
+               'global (non-adjacent) uniqueness of the COO index tuples is stated for consecutive entries (strict lexicographic increase); the transitive form is L-MONO',
+               'numpy.take / Inflate index-range errors at evaluation time (indices are shown in range only for the final COO/CSR data)',
+               'numeric.accumulate beyond the enumeration bound; bincount/add.at floating-point summation order']
